@@ -3,10 +3,12 @@
 use crate::evidence::Ctx;
 
 pub mod c15;
+pub mod c20;
 
 pub fn run(ctx: &mut Ctx) -> Result<(), String> {
     match ctx.prop.as_str() {
         "C15" => c15::run(ctx),
+        "C20" => c20::run(ctx),
         other => Err(format!("unknown property {other}")),
     }
 }
